@@ -103,9 +103,9 @@ def freq_axis_roundtrip(cx, N, atype):
 
 @harness("C13", "ft_direct_sum_complete",
          quick=[dict(N=n) for n in (2, 3, 4, 5, 6)],
-         thorough=[dict(N=n) for n in (2, 3, 4, 5, 6, 8, 10, 12)],
+         thorough=[dict(N=n) for n in (2, 3, 4, 5, 6, 8, 10, 12, 20, 24)],
          functions=[F_DF + ":DFunction.get_Fourier_transform", F_T + ":TimeAxis.get_FrequencyAxis"],
-         bound="complete axes centred at zero, N<=6 (thorough: 2,3,4,5,6,8,10,12 - the orders whose roots of unity have closed radical forms in sqrt2, sqrt3, sqrt5); step>0 symbolic; data arbitrary complex",
+         bound="complete axes centred at zero, N<=6 (thorough: 2,3,4,5,6,8,10,12,20,24 - the orders whose roots of unity have closed radical forms in sqrt2, sqrt3, sqrt5); step>0 symbolic; data arbitrary complex",
          out="window functions; lengths beyond the bound")
 def ft_direct_sum_complete(cx, N):
     from quantarhei import TimeAxis, DFunction
@@ -122,7 +122,7 @@ def ft_direct_sum_complete(cx, N):
 
 @harness("C13", "ft_direct_sum_upper",
          quick=[dict(N=n) for n in (1, 2, 3, 4)],
-         thorough=[dict(N=n) for n in (1, 2, 3, 4, 5, 6)],
+         thorough=[dict(N=n) for n in (1, 2, 3, 4, 5, 6, 10, 12)],
          functions=[F_DF + ":DFunction.get_Fourier_transform", F_T + ":TimeAxis.get_FrequencyAxis"],
          bound="upper-half axes starting at 0, N<=4 (thorough <=6) points (transform length 2N); step>0 symbolic; "
                "data arbitrary complex with the Hermitian extension f(-t)=conj f(t)",
@@ -144,8 +144,8 @@ def ft_direct_sum_upper(cx, N):
 @harness("C13", "ft_roundtrip",
          quick=[dict(N=n, atype="complete") for n in (2, 3, 4, 5, 6)] +
                [dict(N=n, atype="upper-half") for n in (2, 3, 4)],
-         thorough=[dict(N=n, atype="complete") for n in (2, 3, 4, 5, 6, 8, 10, 12)] +
-                  [dict(N=n, atype="upper-half") for n in (2, 3, 4, 5, 6)],
+         thorough=[dict(N=n, atype="complete") for n in (2, 3, 4, 5, 6, 8, 10, 12, 20, 24)] +
+                  [dict(N=n, atype="upper-half") for n in (2, 3, 4, 5, 6, 10, 12)],
          functions=[F_DF + ":DFunction.get_Fourier_transform",
                     F_DF + ":DFunction.get_inverse_Fourier_transform",
                     F_T + ":TimeAxis.get_FrequencyAxis", F_W + ":FrequencyAxis.get_TimeAxis"],
@@ -174,7 +174,7 @@ def ft_roundtrip(cx, N, atype):
 
 @harness("C13", "freq_ft_roundtrip",
          quick=[dict(N=n) for n in (2, 3, 4, 5, 6)],
-         thorough=[dict(N=n) for n in (2, 3, 4, 5, 6, 8, 10, 12)],
+         thorough=[dict(N=n) for n in (2, 3, 4, 5, 6, 8, 10, 12, 20, 24)],
          functions=[F_DF + ":DFunction.get_Fourier_transform",
                     F_DF + ":DFunction.get_inverse_Fourier_transform",
                     F_T + ":TimeAxis.get_FrequencyAxis", F_W + ":FrequencyAxis.get_TimeAxis"],
